@@ -52,6 +52,12 @@ class FakeLoop:
     async def sock_recv_into(self, sock, view):
         return sock.recv_into(view)
 
+    async def sock_recv(self, sock, nbytes):
+        # the other asyncio receive primitive, so that a rewrite of the read loop around it is run rather than refused
+        buf = bytearray(nbytes)
+        n = sock.recv_into(memoryview(buf))
+        return bytes(buf[:n])
+
 
 def make_protocol():
     """A real Protocol on a stub peer (no API consumers, adj-rib-in kept so UPDATEs are decoded)."""
@@ -211,6 +217,11 @@ class TimedSock:
 class TimedLoop:
     def __init__(self, loop):
         self.loop = loop
+
+    async def sock_recv(self, sock, nbytes):
+        buf = bytearray(nbytes)
+        n = await self.sock_recv_into(sock, memoryview(buf))
+        return bytes(buf[:n])
 
     async def sock_recv_into(self, sock, view):
         while sock.avail == 0:
